@@ -480,3 +480,104 @@ pub fn gen_big_tree_seq(rng: &mut Rng, cfg: &TreeGenCfg) -> (Seq, String) {
         profile.to_string(),
     )
 }
+
+/// `n` bits assembled word by word from a palette of structured 64-bit words (empty, full, single bit at either
+/// end, alternating bits / bytes / halves, one hole in a full word, ...) with a few random words in between:
+/// the patterns on which word-level select / rank tricks (broadword, pdep, byte-wise prefix sums) differ from
+/// the bit-by-bit definition, repeated often enough to fill lines and superblocks with the same pattern.
+pub fn gen_word_pattern_bits(rng: &mut Rng, n: usize) -> Vec<bool> {
+    const PALETTE: [u64; 16] = [
+        0,
+        u64::MAX,
+        1,
+        1 << 63,
+        0x8000_0000_0000_0001,
+        0xAAAA_AAAA_AAAA_AAAA,
+        0x5555_5555_5555_5555,
+        0x00FF_00FF_00FF_00FF,
+        0xFF00_FF00_FF00_FF00,
+        0x0000_0000_FFFF_FFFF,
+        0xFFFF_FFFF_0000_0000,
+        0x7FFF_FFFF_FFFF_FFFF,
+        0xFFFF_FFFF_FFFF_FFFE,
+        0xFFFF_FFFE_FFFF_FFFF,
+        0x0101_0101_0101_0101,
+        0x8080_8080_8080_8080,
+    ];
+    // a run uses 1..3 palette words in rotation for a stretch of words, then switches
+    let mut out = Vec::with_capacity(n);
+    while out.len() < n {
+        let k = rng.urange(1, 3);
+        let chosen: Vec<u64> = (0..k).map(|_| if rng.chance(1, 8) { rng.next_u64() } else { *rng.pick(&PALETTE) }).collect();
+        let stretch = match rng.below(4) {
+            0 => rng.urange(1, 4),
+            1 => 8 * rng.urange(1, 4),   // whole 512-bit lines
+            2 => 64 * rng.urange(1, 2),  // whole 4096-bit superblocks
+            _ => rng.urange(4, 40),
+        };
+        for w in 0..stretch {
+            let word = chosen[w % k];
+            for b in 0..64 {
+                if out.len() == n {
+                    break;
+                }
+                out.push(word >> b & 1 == 1);
+            }
+        }
+    }
+    out
+}
+
+/// `n` quad symbols assembled in chunks of 64 (one `u128` half-word of a line) from structured patterns: one symbol
+/// throughout, two alternating, one odd symbol at a chunk edge or in the middle, the four symbols in rotation,
+/// random; stretches of the same pattern fill whole 256/512-symbol blocks and 2048/4096-symbol superblocks.
+pub fn gen_word_pattern_quads(rng: &mut Rng, n: usize) -> Vec<u8> {
+    let mut out = Vec::with_capacity(n);
+    while out.len() < n {
+        let a = rng.below(4) as u8;
+        let b = rng.below(4) as u8;
+        let style = rng.below(7);
+        let odd_at = *rng.pick(&[0usize, 1, 31, 32, 62, 63]);
+        let stretch = match rng.below(4) {
+            0 => rng.urange(1, 3),
+            1 => 4 * rng.urange(1, 4),   // whole 256-symbol blocks
+            2 => 32 * rng.urange(1, 3),  // whole 2048-symbol superblocks
+            _ => rng.urange(3, 20),
+        };
+        for _ in 0..stretch {
+            for i in 0..64usize {
+                if out.len() == n {
+                    break;
+                }
+                out.push(match style {
+                    0 => a,
+                    1 => {
+                        if i % 2 == 0 {
+                            a
+                        } else {
+                            b
+                        }
+                    }
+                    2 => {
+                        if i == odd_at {
+                            b
+                        } else {
+                            a
+                        }
+                    }
+                    3 => (i % 4) as u8,
+                    4 => ((i / 16) % 4) as u8,
+                    5 => {
+                        if i < 32 {
+                            a
+                        } else {
+                            b
+                        }
+                    }
+                    _ => rng.below(4) as u8,
+                });
+            }
+        }
+    }
+    out
+}
